@@ -148,7 +148,7 @@ func RewriteGenerator(dir string) (*GenReport, error) {
 				return nil, err
 			}
 			es := &editSet{src: src}
-			w := &genWalker{pkg: pkg, file: f, rel: rel, es: es, rep: rep, nextID: &nextID, perIter: rep.PerIterLoopVar}
+			w := &genWalker{pkg: pkg, file: f, rel: rel, es: es, rep: rep, nextID: &nextID, perIter: rep.PerIterLoopVar, hookPath: RTBase + "/verifhook"}
 			w.run()
 			if len(es.edits) == 0 {
 				continue
@@ -173,6 +173,7 @@ type genWalker struct {
 	rep     *GenReport
 	nextID  *int
 	perIter bool
+	hookPath string // import path of the hook package
 
 	needHook bool
 	perFunc  map[string]int
@@ -352,7 +353,7 @@ func (w *genWalker) run() {
 		w.es.insert(len(w.es.src), tail)
 	}
 	if w.needHook {
-		w.es.insert(w.off(w.file.Name.End()), `; import verifhook "`+RTBase+`/verifhook"`)
+		w.es.insert(w.off(w.file.Name.End()), `; import verifhook "`+w.hookPath+`"`)
 	}
 }
 
